@@ -9,7 +9,7 @@
 namespace Low.Wire
 
 def splitNE (s : String) (sep : String) : List String :=
-  if s.isEmpty then [] else s.splitOn sep
+  if s.isEmpty || s = "-" then [] else s.splitOn sep
 
 def pNat (s : String) : Option Nat := s.toNat?
 def pInt (s : String) : Option Int := s.toInt?
